@@ -69,31 +69,37 @@ var props = map[string]propCfg{
 	"C09": {
 		Harness:  "./harness/c09",
 		Specs:    []rewrite.PkgSpec{{Dir: repo("par"), Subst: substSync, GoStmts: true}},
-		Quick:    tierCfg{8, 15},
+		Quick:    tierCfg{16, 15},
 		Thorough: tierCfg{16, 600},
 	},
 	"C05": {
 		Harness:  "./harness/c05",
 		Specs:    cacheSpecs(),
-		Quick:    tierCfg{8, 20},
+		Quick:    tierCfg{16, 20},
+		Thorough: tierCfg{16, 600},
+	},
+	"C11": {
+		Harness:  "./harness/c11",
+		Specs:    cacheSpecs(),
+		Quick:    tierCfg{16, 20},
 		Thorough: tierCfg{16, 600},
 	},
 	"C12": {
 		Harness:  "./harness/c12",
 		Specs:    cacheSpecs(),
-		Quick:    tierCfg{8, 20},
+		Quick:    tierCfg{16, 20},
 		Thorough: tierCfg{16, 600},
 	},
 	"C13": {
 		Harness:  "./harness/c13",
 		Specs:    cacheSpecs(),
-		Quick:    tierCfg{8, 20},
+		Quick:    tierCfg{16, 20},
 		Thorough: tierCfg{16, 600},
 	},
 	"C10": {
 		Harness:  "./harness/c10",
 		Specs:    []rewrite.PkgSpec{{Dir: repo("par"), Subst: substSync, GoStmts: true}},
-		Quick:    tierCfg{8, 15},
+		Quick:    tierCfg{16, 15},
 		Thorough: tierCfg{16, 600},
 	},
 }
